@@ -38,6 +38,8 @@ func init() {
 				Run: ruleC12f},
 			{ID: "C12.g", Template: "T-LOCK", Required: true, Run: ruleGlobalsUnderInstanceLocks,
 				Doc: "Package-level variables written on the mutator or request path (plain stores; sync/atomic calls are not stores) are written under a package-level lock. A lock that is a field protects one Container or WebService; Route() on two different services holds two different locks, so a shared counter written under 'the service lock' is a data race."},
+			{ID: "C12.i", Template: "T-LOCK", Required: true, Run: ruleC10c,
+				Doc: "'Can change while requests are being served': a lock taken on the request path is released on every exit, also when user code under it panics (same obligations as C10.c). A read lock left behind by a panicking route condition blocks the next Add/Remove forever, and with it every later request."},
 			{ID: "C12.h", Template: "T-SIBLING", Required: true, Run: ruleC11c,
 				Doc: "'No panic' while services are added and removed: Remove rebuilds the ServeMux from the remaining services, so the duplicate-pattern guard must recognise every registered pattern (same obligations as C11.c); otherwise the rebuild registers a pattern twice, http.ServeMux panics inside Remove and services nobody asked to change disappear."},
 		},
@@ -219,6 +221,35 @@ func ruleC12b(c *Ctx) {
 		arg := strip(call.Call.Args[0])
 		_, fld, ok := fieldLoad(arg)
 		if !ok {
+			// a private copy of the list, made by an accessor that reads the field under its lock only
+			if ac, isCall := arg.(*ssa.Call); isCall && ac.Call.StaticCallee() != nil && p.inModule(ac.Call.StaticCallee()) {
+				g := ac.Call.StaticCallee()
+				underLock, copies, nload := true, true, 0
+				for _, a := range p.fieldAccesses(g) {
+					if a.Kind != "load" {
+						continue
+					}
+					for _, m := range mutableFields(p, li) {
+						if m.Field == a.Field {
+							nload++
+							if li.heldAt(a.Instr)[m.Lock] == lockNone {
+								underLock = false
+							}
+							for _, r := range returnsOf(g) {
+								for _, res := range r.Results {
+									if strip(res) == ssa.Value(a.Instr.(*ssa.UnOp)) {
+										copies = false
+									}
+								}
+							}
+						}
+					}
+				}
+				if nload > 0 && underLock && copies {
+					c.ok(name, "SelectRoute on a private copy of the service list", p.ipos(call), "the list is copied by "+p.fname(g)+" while it holds the lock; the selection runs on the copy")
+					continue
+				}
+			}
 			c.undecided(name, "SelectRoute service-list argument", p.ipos(call), "the service list handed to SelectRoute is not a direct load of a container field; cannot relate it to a critical section")
 			continue
 		}
